@@ -127,3 +127,27 @@ def report_flush_callers(ctx):
                               {"input": {"function": fn, "history": "unstable (or not yet flushed) commit; a request whose transaction does not fit into the log (SYMLINK with a 600-block target: "
                                                                      "NFS3ERR_SERVERFAULT), from any client, between that commit and the Flush(); crash"},
                                "how": "regenerated list Gen/Skeleton.flushCallers (theorem nobody_relies_on_the_remembered_position); model M9c: flush_forgets_after_a_refusal"})
+
+
+def report_journal_objects(ctx):
+    """Concrete call sites: journal objects whose size is not that of the lock / allocator number protecting them."""
+    if not any(b.kind == "proof" for b in ctx.breaks):
+        return
+    f = os.path.join(ctx.scratch, "jobj.lean")
+    open(f, "w").write("import GoNfsd.Gen.Skeleton\nopen GoNfsd.Gen.Skeleton GoNfsd.Model.Skeleton\n"
+                       "#eval (journalObjects.filter fun e => !(journalObjectsExpected.contains e)).map fun e => s!\"JOBJ {e.1} {e.2.1} [{e.2.2}]\"\n"
+                       "#eval (journalObjectsExpected.filter fun e => !(journalObjects.contains e)).map fun e => s!\"JMISS {e.1} {e.2.1} [{e.2.2}]\"\n")
+    rc, out = vlib.run(["lake", "build", "GoNfsd.Gen.Skeleton"], cwd=vlib.LEAN, timeout=600)
+    if rc != 0:
+        return
+    rc, out = vlib.run(["lake", "env", "lean", f], cwd=vlib.LEAN, timeout=600)
+    extra = re.findall(r"JOBJ (\S+) (\S+) \[([^\]]*)\]", out)
+    missing = re.findall(r"JMISS (\S+) (\S+) \[([^\]]*)\]", out)
+    for fn, meth, size in extra[:3]:
+        want = [m for m in missing if m[0] == fn]
+        ctx.add_violation("journal-object-granularity:" + fn,
+                          "%s hands the journal an object of %s bits (%s); the lock or allocator number that protects it covers %s" % (
+                              fn, size, meth, ("%s bits" % want[0][2]) if want else "something else"),
+                          {"input": {"function": fn, "call": meth, "size_bits_in_source": size, "expected": want[:1]},
+                           "how": "regenerated table Gen/Skeleton.journalObjects against Model/Skeleton.journalObjectsExpected: the journal merges sub-block objects of concurrently "
+                                  "committing transactions; an object wider than what its writer owns (a bitmap BYTE: eight allocator numbers) carries stale bits of other transactions"})
